@@ -41,6 +41,8 @@ func mod1Literals(levelQ int) []mod1Lit {
 		{"CosDiscrete-K12-d30-da3", mod1.ParametersLiteral{LevelQ: levelQ, Mod1Type: mod1.CosDiscrete, LogMessageRatio: 8, K: 12, Mod1Degree: 30, DoubleAngle: 3, LogScale: 60}},
 		{"CosContinuous-K6-d63-da0", mod1.ParametersLiteral{LevelQ: levelQ, Mod1Type: mod1.CosContinuous, LogMessageRatio: 8, K: 6, Mod1Degree: 63, DoubleAngle: 0, LogScale: 60}},
 		{"SinContinuous-K6-d63", mod1.ParametersLiteral{LevelQ: levelQ, Mod1Type: mod1.SinContinuous, LogMessageRatio: 8, K: 6, Mod1Degree: 63, LogScale: 60}},
+		// with arcsine (as in the package's own SineContinuousWithArcSine test, smaller K and degree)
+		{"SinContinuous-K6-d63-arcsine7", mod1.ParametersLiteral{LevelQ: levelQ, Mod1Type: mod1.SinContinuous, LogMessageRatio: 8, K: 6, Mod1Degree: 63, Mod1InvDegree: 7, LogScale: 60}},
 		{"CosContinuous-K10-d40-da2", mod1.ParametersLiteral{LevelQ: levelQ, Mod1Type: mod1.CosContinuous, LogMessageRatio: 6, K: 10, Mod1Degree: 40, DoubleAngle: 2, LogScale: 60}},
 	}
 }
@@ -117,7 +119,12 @@ func mod1Plain(pm mod1.Parameters, u, scaling float64) (y float64, ymax float64)
 		b, _ := pm.Mod1Poly.B.Float64()
 		v += -0.5 / ((b - a) * pm.IntervalShrinkFactor())
 	}
-	spow := math.Pow(scaling, 1/pm.IntervalShrinkFactor())
+	// without arcsine the scaling goes into the polynomial (2^r-th root, squared back by the double angles);
+	// with arcsine it goes into the arcsine polynomial
+	spow := 1.0
+	if pm.Mod1InvPoly == nil {
+		spow = math.Pow(scaling, 1/pm.IntervalShrinkFactor())
+	}
 	cs := toC128(pm.Mod1Poly.Coeffs)
 	y = real(refEval(chebUnit, cs, complex(v, 0))) * spow
 	sq := pm.Sqrt2Pi * spow
@@ -125,6 +132,10 @@ func mod1Plain(pm mod1.Parameters, u, scaling float64) (y float64, ymax float64)
 		ymax = math.Max(ymax, math.Abs(y))
 		sq *= sq
 		y = 2*y*y - sq
+	}
+	ymax = math.Max(ymax, math.Abs(y))
+	if pm.Mod1InvPoly != nil {
+		y = real(refEval(basisCases[0], toC128(pm.Mod1InvPoly.Coeffs), complex(y, 0))) * scaling
 	}
 	return
 }
@@ -174,9 +185,6 @@ func mod1Leaf(c *engine.Chooser, scName string, spec circ.CKKSSpec, li, first in
 		return pm
 	}
 	pristine := newParams() // never handed to an evaluator: source of the plaintext reference
-	if pristine.Mod1InvPoly != nil {
-		panic("harness: literal with arcsine")
-	}
 	x := mod1Grid(pristine.K, ml.lit.LogMessageRatio, w.slots)
 	scaleIn := pristine.ScalingFactor()
 	// input ciphertext (cached per literal; deterministic in seed, world, literal)
@@ -253,7 +261,10 @@ func mod1Leaf(c *engine.Chooser, scName string, spec circ.CKKSSpec, li, first in
 			c.Fail(sig+"/history-sensitive", "%s step %d (%s): result differs from the same call on a fresh evaluator with fresh parameters", desc, step, op.name)
 		}
 		got := w.Decode(out, p.LogMaxSlots(), scaleIn)
-		spow := math.Pow(op.scaling, 1/pristine.IntervalShrinkFactor())
+		spow := 1.0
+		if pristine.Mod1InvPoly == nil {
+			spow = math.Pow(op.scaling, 1/pristine.IntervalShrinkFactor())
+		}
 		worst, worstApprox, maxEps := 0.0, 0.0, 0.0
 		for j := range x {
 			plain, ymax := mod1Plain(pristine, x[j]/pristine.K, op.scaling)
@@ -262,6 +273,20 @@ func mod1Leaf(c *engine.Chooser, scName string, spec circ.CKKSSpec, li, first in
 			e := polyModel(p.Parameters, true, len(pristine.Mod1Poly.Coeffs)-1, S*spow, rho, delta)
 			for i := 0; i < pristine.DoubleAngle; i++ {
 				e = 4*(ymax+e)*e + 2*e*e + mu
+			}
+			if inv := pristine.Mod1InvPoly; inv != nil {
+				// monomial arcsine polynomial q (coefficients times scaling) at |y| <= Y < 1:
+				// |q(y+e)-q(y)| <= sum |c_i| i Y^(i-1) * e, plus the noise of its own evaluation
+				ic := toC128(inv.Coeffs)
+				Y := ymax + e
+				L, S2 := 0.0, 0.0
+				for i, ci := range ic {
+					if i > 0 {
+						L += cmplx.Abs(ci) * float64(i) * math.Pow(Y, float64(i-1))
+					}
+					S2 += cmplx.Abs(ci)
+				}
+				e = op.scaling * (L*e + polyModel(p.Parameters, false, len(ic)-1, S2, 0, delta))
 			}
 			eps := safety*e + 1e-12
 			d := cmplx.Abs(got[j] - complex(plain, 0))
